@@ -38,6 +38,7 @@ I_UF = z3.Function("synapse_interp", R, R, R, R, R)
 for _k in ("LinearDense", "LinearDirect", "LinearLateral"):
     c05.make(P, _k)
 c05.make_conv(P)
+c05.make_conv_layout(P)  # the per-tap delay selector must use the same row order as the unfolded input
 
 
 @contract(P, "_synparam_at[select by contract]", [(SM, "_synparam_at")], min_obligations=6)
@@ -117,6 +118,7 @@ for _cd in list(_REG.get("C04", [])):
 
 
 MUTANTS = [
+    dict(file=c05.CONV, func="Conv2D.selector", old='"f c h w -> 1 (c h w) 1 f"', new='"f c h w -> 1 (c w h) 1 f"', contracts=["Conv2D.layouts"], name="seed C06d: delay selector flattens the kernel as (c w h)"),
     dict(file=INF, func="RecordTensor.reset", old="        if fill is not None:", new="        if fill:", contracts=["DeltaCurrent.forward", "SingleExponentialCurrent.forward"], name="seed C06b: clearing with fill 0 leaves the delay history in place"),
     dict(file=SM, func="_synparam_at", old="                tolerance=tolerance,\n", new="", contracts=["_synparam_at[select by contract]"], name="seed C04b: tolerance keyword dropped (select falls back to its own default)"),
     dict(file=SM, func="_synparam_at", old="bounded_selector = selector.clamp(min=0, max=value.duration)", new="bounded_selector = selector.clamp(min=0)", contracts=["_synparam_at[select by contract]"], name="delay not clamped to the supported maximum (select precondition breaks)"),
